@@ -321,6 +321,20 @@ def run_ctor(cell, rec, seed):
                                 Cs.append(np.tile(CC[None], (2, 1, 1)))
                             check_density(rec, q, np.concatenate(ms), np.concatenate(Cs), info,
                                           "condition_on_x", quad=False)
+                            # the same density, the same conditioning set, the free coordinates
+                            # named explicitly in another order (rows follow the requested list)
+                            if len(ia) >= 2:
+                                ip = ia[rng.permutation(len(ia))]
+                                ce = _call(rec, "condition_on_explicit",
+                                           lambda: p.condition_on_explicit(JI(dims[:1]), JI(ip)),
+                                           info)
+                                qe = None if ce is None else _call(
+                                    rec, "condition_on_x", lambda: ce.condition_on_x(J(xb)), info)
+                                if qe is not None:
+                                    pos = np.array([int(np.where(ia == i)[0][0]) for i in ip])
+                                    check_density(rec, qe, np.concatenate(ms)[:, pos],
+                                                  np.concatenate(Cs)[:, pos][:, :, pos], info,
+                                                  "condition_on_explicit", quad=False)
                 Ds = int(rng.integers(1, D + 1))
                 W = gen.lin_map(rng, R, Ds, D)
                 bb = gen.vec(rng, R, Ds)
